@@ -191,6 +191,7 @@ def lock_machine(mdl: M.Model, tr, dts, pwm0, w_init, out, pid='C13', start=0, h
     zero = held_instants(mdl, tr)
     held = np.zeros(tr.n, dtype=bool)
     amb = 0
+    uncertain = False
     scale_w = max(mdl.w0, float(np.max(np.abs(wm))) if tr.n else 0.0)
     for k in range(start, tr.n):
         D = pwm0 if k == 0 else pwm[k - 1]
@@ -208,7 +209,21 @@ def lock_machine(mdl: M.Model, tr, dts, pwm0, w_init, out, pid='C13', start=0, h
         if mdl.locking_ambiguous or near or (near_t and prev and not lockcond):
             amb += 1
             held[k] = zero[k]
+            # all speeds and accelerations zero after a decision too close to call: the drive is either held or
+            # exactly at rest in equilibrium - the two cannot be told apart from the record
+            uncertain = bool(zero[k])
             continue
+        if uncertain:
+            if lockcond:
+                uncertain = False            # an unambiguous lock condition: held from here on
+            elif not zero[k]:
+                uncertain = False            # it moves: it was not held
+                held[k] = False
+                continue
+            else:
+                amb += 1
+                held[k] = True
+                continue
         h = bool(lockcond or (prev and not release))
         held[k] = h
         # safety invariant on the motor speed
